@@ -64,7 +64,8 @@ Proof.
       * destruct Ht as [<-|[]]. cbn. lia.
     + intros o cd m body Ho. rewrite Hcls in Ho. discriminate.
     + intros o cd Ho. rewrite Hcls in Ho. discriminate.
-    + intros [[|[|f]]|o m|o]; cbn; lia.
+    + intros o cd Ho. rewrite Hcls in Ho. discriminate.
+    + intros [[|[|f]]|o m|o|o]; cbn; lia.
   - cbn. unfold get_fn. cbn. discriminate.
   - vm_compute. reflexivity.
 Qed.
